@@ -563,9 +563,29 @@ impl<'a> World<'a> {
             .filter(|i| self.indexed[*i])
             .map(|i| self.keys[i].bytes.clone())
             .collect();
-        if idx != model {
-            let extra = idx.difference(&model).count();
-            let missing = model.difference(&idx).count();
+        // WHEN the index takes up (or drops) a key whose background work is still in flight is the implementation's
+        // business (C01/C10 speak about settled state and about capacity): only keys without pending work are compared
+        let busy: BTreeSet<Vec<u8>> = (0..self.keys.len())
+            .filter(|i| !self.keys[*i].pending_writes.is_empty() || self.unacked[*i] > 0 || self.keys[*i].pending_deletes > 0)
+            .map(|i| self.keys[i].bytes.clone())
+            .collect();
+        // a key whose last put was accepted may be listed before the model saw an acknowledgement (an implementation
+        // that writes synchronously has no acknowledgement): the model follows
+        for i in 0..self.keys.len() {
+            if !self.indexed[i] && idx.contains(&self.keys[i].bytes) && !busy.contains(&self.keys[i].bytes) && matches!(self.keys[i].expect, Expect::Value(_)) {
+                self.indexed[i] = true;
+                self.rep.probe("accepted_key_listed_without_acknowledgement");
+            }
+        }
+        let model: BTreeSet<Vec<u8>> = (0..self.keys.len())
+            .filter(|i| self.indexed[*i])
+            .map(|i| self.keys[i].bytes.clone())
+            .collect();
+        let idx_q: BTreeSet<Vec<u8>> = idx.difference(&busy).cloned().collect();
+        let model_q: BTreeSet<Vec<u8>> = model.difference(&busy).cloned().collect();
+        if idx_q != model_q {
+            let extra = idx_q.difference(&model_q).count();
+            let missing = model_q.difference(&idx_q).count();
             self.viol(
                 "index.differs_from_model",
                 &[("ctx", ctx.into())],
